@@ -69,6 +69,25 @@ def resend_progress(ctx, rep, ver, mod, pmod):
     loop = next((c for c in comps if wc and wc[0] in c), None)
     if loop is None or not fl:
         raise AnchorLost("%s resend: rebuilding loop with write_chunk and flush not found" % ver)
+    # (0) the loop guard is exactly `i < resend_queue.len()`: the element access queue[len - i - 1] (reviewed under C04 R3
+    # against this very guard) is inside the range only for i < len
+    idx = [bi for bi, t in b.calls() if (t.get("callee") or "").endswith("as std::ops::Index>::index") and bi in loop]
+    okg = False
+    for bi in idx:
+        for c, rel, v, edge, dty in ir.edge_conditions(bi):
+            if edge[0] not in loop or c[0] != "bin" or c[1] not in ("Lt", "Le", "Gt", "Ge"):
+                continue
+            txt_l, txt_r = show(strip_sites(c[2])), show(strip_sites(c[3]))
+            truth = (rel == "==" and v == 1) or (rel == "notin" and 0 in v)
+            op = c[1] if truth else {"Lt": "Ge", "Le": "Gt", "Gt": "Le", "Ge": "Lt"}[c[1]]
+            if "resend_queue" in txt_l and "len" in txt_l:
+                op = {"Lt": "Gt", "Le": "Ge", "Gt": "Lt", "Ge": "Le"}[op]
+                txt_l, txt_r = txt_r, txt_l
+            if "resend_queue" in txt_r and "len" in txt_r and op == "Lt":
+                okg = True
+    rep.ob(rule, "%s | the rebuilding loop runs while i < resend_queue.len()" % ver, okg and bool(idx),
+           "the element access is dominated by i < len" if okg else
+           "the loop guard is not `i < resend_queue.len()`: with `<=` the access queue[len - i - 1] underflows after the last chunk", b.loc())
     # (1) the counter compared in the loop guard is advanced in the block of write_chunk's branch
     adv = False
     for bi in loop:
